@@ -1,4 +1,5 @@
 import Tibc.Lemmas.Origin
+import Tibc.Lemmas.HostKeys
 /-
   C01 — Inbound packets are authentic: accepted only if the counterparty committed them.
   PROPERTY THEOREMS ONLY (helper lemmas live in `Tibc/Lemmas`).
@@ -102,5 +103,32 @@ def exWorld : World := run exH id World.init exOps
 
 example : (step exH id exWorld (.tx "B" (.recvPacket exPacket (.honest "A" 9 (.commit exPacket.key)) 9 ""))).2 = .ok := by
   decide
+
+/-- **Store keys of commitments.** The model keeps commitments in a map indexed by
+    `(source, destination, sequence)`; in the code they live in one byte-keyed store. For chain
+    names without `/` (all that `ValidateBasic` admits) the key builder is injective, so two
+    packets share a commitment slot only if they agree on all three — and a commitment key is
+    never the key of a receipt, an acknowledgement, a clean point, a highest-acknowledged or a
+    next-send counter. (Builders: `Host/Keys`, tied to `24-host/keys.go` by `Expect/Keys` and the
+    `keys` stream.) -/
+theorem commitment_key_injective {src src' dst dst' : Str} {n n' : Nat}
+    (hs : '/' ∉ src) (hd : '/' ∉ dst) (hs' : '/' ∉ src') (hd' : '/' ∉ dst')
+    (h : Host.packetCommitmentPath src dst n = Host.packetCommitmentPath src' dst' n') :
+    src = src' ∧ dst = dst' ∧ n = n' :=
+  (Host.seqPath_injective (by decide) hs hd (by decide) hs' hd' h).2
+
+theorem commitment_key_family_disjoint {src src' dst dst' : Str} {n n' : Nat}
+    (hs : '/' ∉ src) (hd : '/' ∉ dst) (hs' : '/' ∉ src') (hd' : '/' ∉ dst') :
+    Host.packetCommitmentPath src dst n ≠ Host.packetReceiptPath src' dst' n' ∧
+    Host.packetCommitmentPath src dst n ≠ Host.packetAcknowledgementPath src' dst' n' ∧
+    Host.packetCommitmentPath src dst n ≠ Host.cleanPacketCommitmentPath src' dst' ∧
+    Host.packetCommitmentPath src dst n ≠ Host.maxAckSeqPath src' dst' ∧
+    Host.packetCommitmentPath src dst n ≠ Host.nextSequenceSendPath src' dst' := by
+  refine ⟨?_, ?_, ?_, ?_, ?_⟩
+  · intro h; have := (Host.seqPath_injective (by decide) hs hd (by decide) hs' hd' h).1; revert this; decide
+  · intro h; have := (Host.seqPath_injective (by decide) hs hd (by decide) hs' hd' h).1; revert this; decide
+  · exact Host.seqPath_ne_pairPath (by decide) hs hd (by decide) hs' hd'
+  · exact Host.seqPath_ne_pairPath (by decide) hs hd (by decide) hs' hd'
+  · exact Host.seqPath_ne_pairPath (by decide) hs hd (by decide) hs' hd'
 
 end Tibc.C01
